@@ -78,25 +78,8 @@ def _count_delta(e):
     """net change a store makes to started_threads: +1 / -1 / other integer / None (not a store to it) / '?'"""
     if not (e['ev'] == 'store' and lvalue_steps(e['lhs']) == [(PRIV, 'started_threads')]):
         return None
-    op = e.get('op')
-    if op == '++':
-        return 1
-    if op == '--':
-        return -1
-    def ival(x):
-        x = strip(x)
-        if isinstance(x, dict) and x.get('k') == 'un' and x.get('op') == '-' and is_int(x.get('e')):
-            return -strip(x['e'])['v']
-        return x['v'] if is_int(x) else None
-    if op in ('+=', '-=') and 'rhs' in e:
-        n = ival(e['rhs'])
-        return '?' if n is None else (n if op == '+=' else -n)
-    # `n = n - 1` / `n = n + 1`
-    r = strip(e.get('rhs')) if op == '=' and 'rhs' in e else None
-    if isinstance(r, dict) and r.get('k') == 'bin' and r.get('op') in ('+', '-') and canon(r['l']) == canon(e['lhs']):
-        n = ival(r['r'])
-        return '?' if n is None else (n if r['op'] == '+' else -n)
-    return '?'
+    d = h13.store_delta(e)
+    return '?' if d is None else d
 
 
 def is_death(e):
@@ -120,14 +103,24 @@ def hook_call(e, which, fn=None):
         return False
     if last_member(e.get('fnexpr')) == (PRIV, which):
         return True
-    return fn is not None and h13.called_field(fn, e) == (PRIV, which)
+    if fn is None:
+        return False
+    if h13.called_field(fn, e) == (PRIV, which):
+        return True
+    # through a local that holds the field's value *here* (`stop = pool->thread_stop ? pool->thread_stop : no_hook;`)
+    v = strip(e['fnexpr'])
+    if isinstance(v, dict) and v.get('k') == 'var':
+        cache = fn.__dict__.setdefault('_c13_hookcopies', {})
+        if which not in cache:
+            cache[which] = h13.value_copies(fn, ('field', PRIV, which))
+        return v['name'] in (cache[which].get((e['_b'], e['_i'])) or ())
+    return False
 
 
 def is_obj_free(e, record):
     if not (is_call(e, 'free') and e.get('args')):
         return False
-    a = strip(e['args'][0])
-    return isinstance(a, dict) and a.get('k') == 'var' and a.get('record') == record
+    return h13.obj_record(e['args'][0]) == record
 
 
 def _agg(ctx, rid, inst, events, okf, detail, root, g, path=True):
@@ -191,7 +184,7 @@ def _registered(prog, files):
     for f in prog.all_funcs():
         for e in f.events():
             if e['ev'] == 'call' and e.get('callee') in regs and e.get('args'):
-                lm = lm_arg(e, 0)
+                lm = lm_arg(h13.norm_event(prog, e), 0)
                 if lm:
                     out.add(lm)
     for (root, g, sites) in h13.contexts(prog, lambda e: e['ev'] == 'call' and e.get('callee') in regs, key='regs'):
@@ -229,15 +222,15 @@ def container_free(ctx, files=('iv_work.c', 'iv_thread_posix.c'), rid='R-C13a'):
     registered = _registered(prog, files)
     n = 0
     def anyfree(e):
-        return is_call(e, 'free') and e.get('args') and strip(e['args'][0]).get('k') == 'var' and strip(e['args'][0]).get('record')
+        return is_call(e, 'free') and e.get('args') and h13.obj_record(e['args'][0])
     for (root, g, sites) in h13.contexts(prog, anyfree, key='free'):
         if not root.file.endswith(tuple(files)):
             continue
-        for rec in sorted({strip(e['args'][0])['record'] for e in sites}):
+        for rec in sorted({h13.obj_record(e['args'][0]) for e in sites}):
             W = _worlds(prog, root, g, rec, registered)
             if W is None:
                 continue
-            frees = [e for e in sites if strip(e['args'][0])['record'] == rec]
+            frees = [e for e in sites if h13.obj_record(e['args'][0]) == rec]
             for fld in W.fields:
                 i = W.idx[fld]
                 reg, unreg = W.regs[fld]
@@ -303,7 +296,7 @@ def pool_free(ctx):
         n += 1
         _agg(ctx, 'R-C13b', 'pool-free:shutting-down', live, lambda e: h13.g_nonzero(at(e), K_SHUT),
              'free(pool) only after the decision shutting_down != 0', root, g)
-        _agg(ctx, 'R-C13b', 'pool-free:no-threads', live, lambda e: h13.g_zero(at(e), K_STARTED, lock=POOL),
+        _agg(ctx, 'R-C13b', 'pool-free:no-threads', live, lambda e: h13.g_zero(at(e), K_STARTED, lock=POOL, count=True),
              'every path to free(pool) decided started_threads == 0 under the pool lock', root, g)
         _agg(ctx, 'R-C13b', 'pool-free:done-queue-empty', live, lambda e: h13.g_nonzero(at(e), K_DONE_EMPTY, lock=POOL),
              'every path to free(pool) decided that work_done is empty under the pool lock', root, g)
@@ -346,7 +339,9 @@ def hooks(ctx):
     if not nb:
         raise AnalysisBroken('no increment of started_threads found')
     # --- every writer of the count is a birth, a death or the initialisation of a pool nobody else can reach yet
-    ws = prog.writers_of(PRIV, 'started_threads')
+    # (looked for in the calling contexts: a helper that gets `&pool->threads` stores through its parameter)
+    ws = [(root, e) for (root, g, sites) in h13.contexts(prog, lambda e: e['ev'] == 'store' and (PRIV, 'started_threads') in lvalue_steps(e['lhs']),
+                                                        key='count-writers') for e in sites]
     others = [(fn, e) for (fn, e) in ws if not is_birth(e) and not is_death(e)]
     registered = _registered(prog, ('iv_work.c',))
     okw, det = True, []
@@ -404,8 +399,11 @@ def hooks(ctx):
         ctx.ob('R-C13c', 'die:kick-unregistered@%s' % root.name, bool(ex2) and all(u for (d, u) in ex2 if d), loc=sites[0]['loc'],
                detail='every path on which the worker is counted out also unregisters its kick event (its loop can end)', fn=root.q)
         # (c) after the decrement the owner is posted unless a later decision says threads remain or the pool is not shutting down
+        cv = h13.value_copies(g, K_STARTED, POOL)
         def excuse(blk, si, atoms):
-            return h13.atoms_zero(atoms, K_SHUT) or h13.atoms_nonzero(atoms, K_STARTED)
+            # a local that holds the count as the decrement left it (`left = --pool->started_threads`) stands for the count
+            fcc = {v: K_STARTED for v in (cv.get((blk.id, len(blk.events))) or ())}
+            return h13.atoms_zero(atoms, K_SHUT) or h13.atoms_nonzero(atoms, K_STARTED, fcc)
         def okpost(e):
             mp = h13.must(g, is_pool_post, excuse=excuse, start_event=e)
             return bool(mp.get((g.exit, 0), True)) and (g.exit, 0) in mp
@@ -443,22 +441,47 @@ def hooks(ctx):
 # R-C13d
 # --------------------------------------------------------------------------
 
-def _cursor_of(g, base):
-    """the list cursor(s) from which the object expression `base` (of &base->kick) is derived by container_of"""
+def _cursor_of(g, base, _seen=None):
+    """the list cursor(s) from which the object expression `base` (of &base->kick) is derived by container_of, also when
+    the derived pointer travelled through copies (`thr = next;`, the result variable of an inlined helper; a NULL
+    assigned on the "no more elements" path is no thread)"""
+    def cursor_var(x):
+        # a list cursor is a local of type struct iv_list_head *; `entry(thr->list.next)` advances from a thread, not from a cursor
+        v = root_var(x)
+        x0 = strip(x)
+        if v is not None and isinstance(x0, dict) and x0.get('k') == 'var':
+            return v
+        return None
     cb = h13.container_base(base)
     if cb is not None:
-        v = root_var(cb[1])
-        return {v['name']} if v is not None else set()
+        v = cursor_var(cb[1])
+        return {v['name']} if v is not None else ({h13.was_of(cb[1])} if h13.was_of(cb[1]) else set())
     b = strip(base)
-    if isinstance(b, dict) and b.get('k') == 'var':
+    _seen = set() if _seen is None else _seen
+    if isinstance(b, dict) and b.get('k') == 'var' and b['name'] not in _seen:
+        _seen.add(b['name'])
         out = set()
         for e in g.events():
             if e['ev'] == 'store' and e.get('op') == '=' and 'rhs' in e and strip(e['lhs']).get('k') == 'var' and strip(e['lhs'])['name'] == b['name']:
+                if is_null(e['rhs']):
+                    continue
                 cb = h13.container_base(e['rhs'])
-                v = root_var(cb[1]) if (cb is not None and cb[0] == THR) else None
-                if v is None:
+                if cb is None:
+                    r = strip(e['rhs'])
+                    if isinstance(r, dict) and r.get('k') == 'var' and r.get('vk') in ('local', 'param'):
+                        sub = _cursor_of(g, r, _seen)
+                        if not sub and r['name'] not in _seen - {r['name']}:
+                            return set()
+                        out |= sub
+                        continue
                     return set()
-                out.add(v['name'])
+                if cb[0] != THR:
+                    return set()
+                v = cursor_var(cb[1])
+                if v is not None:
+                    out.add(v['name'])
+                elif h13.was_of(cb[1]):
+                    out.add(h13.was_of(cb[1]))
         return out
     return set()
 
@@ -486,12 +509,41 @@ def put(ctx):
     kicks = [e for e in g.events() if is_kick_post(e)]
     okk, why = bool(kicks), 'no kick post found'
     cursors = set()
+    typed = set()          # thread-typed cursors (`for (thr = entry(head->next); &thr->list != head; thr = entry(thr->list.next))`)
+    def next_of(x):
+        """('head',) / ('entry', T) when x reads the `.next` of the idle list head / of the linkage of thread variable T"""
+        x = h13.resolve(x, al)
+        if not (isinstance(x, dict) and x.get('k') == 'member' and x.get('record') == 'iv_list_head' and x.get('field') == 'next'):
+            return None
+        b = x['base']
+        if (last_member(b) if not x['arrow'] else h13.head_of(b, al)) == (PRIV, 'idle_threads'):
+            return ('head',)
+        if not x['arrow'] and last_member(b) == (THR, 'list'):
+            v = strip(strip(b)['base']) if strip(b).get('arrow') else None
+            if isinstance(v, dict) and v.get('k') == 'var':
+                return ('entry', v['name'])
+        return None
+    def typed_defs(name):
+        """the definitions of thread variable `name`, if each of them takes the entry of a `.next` pointer read"""
+        ds = [e for e in g.events() if e['ev'] == 'store' and strip(e['lhs']).get('k') == 'var' and strip(e['lhs'])['name'] == name]
+        out = []
+        for e in ds:
+            cb = h13.container_base(e['rhs']) if (e.get('op') == '=' and 'rhs' in e) else None
+            nx = next_of(cb[1]) if (cb is not None and cb[0] == THR) else None
+            if nx is None:
+                return None
+            out.append((e, nx))
+        return out
     for k in kicks:
         base = strip(strip(k['args'][0])['e'])['base']
-        cs = _cursor_of(g, base)
-        if not cs:
-            okk, why = False, 'the kicked thread is not derived from a list cursor (%s)' % canon(base)
-        cursors |= cs
+        b0 = strip(base)
+        if isinstance(b0, dict) and b0.get('k') == 'var' and typed_defs(b0['name']):
+            typed.add(b0['name'])
+        else:
+            cs = _cursor_of(g, base)
+            if not cs:
+                okk, why = False, 'the kicked thread is not derived from a list cursor (%s)' % canon(base)
+            cursors |= cs
         if POOL not in held(ls.get((k['_b'], k['_i']))):
             okk, why = False, 'a kick is posted outside the pool-lock region'
     if okk:
@@ -504,7 +556,8 @@ def put(ctx):
             hd = last_member(b) if not r['arrow'] else h13.head_of(b, al)
             return hd == (PRIV, 'idle_threads')
         firsts = [e for e in defs if is_first(e)]
-        if not firsts:
+        tfirst = [e for t_ in typed for (e, nx) in typed_defs(t_) if nx == ('head',)]
+        if not firsts and not tfirst:
             okk, why = False, 'no cursor starts at the first element of idle_threads'
         def var_def(e, name):
             return e['ev'] == 'store' and strip(e['lhs']).get('k') == 'var' and strip(e['lhs'])['name'] == name
@@ -513,20 +566,40 @@ def put(ctx):
             if not (e['ev'] == 'store' and e.get('op') == '=' and 'rhs' in e and strip(e['lhs']).get('k') == 'var'):
                 return False
             cb = h13.container_base(e['rhs'])
-            return cb is not None and cb[0] == THR and (root_var(cb[1]) or {}).get('name') == cur
+            if cb is None or cb[0] != THR:
+                return False
+            x0 = strip(cb[1])
+            return isinstance(x0, dict) and ((x0.get('k') == 'var' and x0['name'] == cur) or h13.was_of(cb[1]) == cur)
         def kick_base_raw(e):
             return strip(strip(e['args'][0])['e'])['base']
         def kick_base(e):
             return strip(kick_base_raw(e))
+        # variables that hold a thread taken from a cursor of the walk (directly or through copies)
+        taken_vars = {strip(e['lhs'])['name'] for e in g.events() if any(derived_from(e, c) for c in cursors)}
+        ch_ = True
+        while ch_:
+            ch_ = False
+            for e in g.events():
+                if e['ev'] == 'store' and e.get('op') == '=' and 'rhs' in e and strip(e['lhs']).get('k') == 'var':
+                    r_ = strip(e['rhs'])
+                    if isinstance(r_, dict) and r_.get('k') == 'var' and r_['name'] in taken_vars and strip(e['lhs'])['name'] not in taken_vars:
+                        taken_vars.add(strip(e['lhs'])['name'])
+                        ch_ = True
         for d in defs:
             cur = strip(d['lhs'])['name']
             def at_end(blk, si, atoms, cur=cur):
                 for (op, lc, rc, l, r) in atoms:
+                    # the idle list is decided to be empty (under the lock, nothing links a thread in here): every
+                    # element a cursor can select is the head itself
+                    if op == '!=' and h13.opkey(l) == ('empty', PRIV, 'idle_threads') and is_int(r, 0):
+                        return True
                     if op != '==':
                         continue
                     for (x, y) in ((l, r), (r, l)):
                         x0 = strip(x)
-                        if isinstance(x0, dict) and x0.get('k') == 'var' and x0['name'] == cur and h13.head_of(y, al) == (PRIV, 'idle_threads'):
+                        # (the cursor itself, or the expression copy propagation spelled its read with)
+                        if isinstance(x0, dict) and ((x0.get('k') == 'var' and x0['name'] == cur) or h13.was_of(x) == cur) \
+                                and h13.head_of(y, al) == (PRIV, 'idle_threads'):
                             return True
                 return False
             # (1a) the element this definition selects is the list head, or its thread object is taken (or kicked directly),
@@ -536,7 +609,8 @@ def put(ctx):
                     return True
                 if is_kick_post(e):
                     cb = h13.container_base(kick_base_raw(e))
-                    return cb is not None and (root_var(cb[1]) or {}).get('name') == cur
+                    x0 = strip(cb[1]) if cb is not None else None
+                    return isinstance(x0, dict) and ((x0.get('k') == 'var' and x0['name'] == cur) or h13.was_of(cb[1]) == cur)
                 return False
             def tr(e, s, cur=cur):
                 return True if (used(e) or var_def(e, cur)) else s
@@ -548,29 +622,144 @@ def put(ctx):
             pts = [(e['_b'], e['_i']) for e in defs if strip(e['lhs'])['name'] == cur] + [exit_pt]
             if not all(ev1.get(p, True) for p in pts):
                 okk, why = False, 'an element selected at %s is neither used for a kick nor the list head' % relpath(d['loc'])
-            # (2) the walk ends only at the list head
+            # (2) the walk ends only at the list head (decided on whichever cursor of the walk holds the position then)
             if d in firsts:
-                mp = h13.must(g, lambda e: False, excuse=at_end, start_event=d)
+                def any_end(blk, si, atoms):
+                    if any(at_end(blk, si, atoms, cur=c_) for c_ in cursors):
+                        return True
+                    # the position may be held as the thread around it: `&T->list == &idle_threads`, T taken from a cursor of the walk
+                    for (op, lc, rc, l, r) in atoms:
+                        if op != '==':
+                            continue
+                        for (x, y) in ((l, r), (r, l)):
+                            x0 = strip(x)
+                            if isinstance(x0, dict) and x0.get('k') == 'addr' and last_member(x0['e']) == (THR, 'list') \
+                                    and h13.head_of(y, al) == (PRIV, 'idle_threads') and (root_var(x0['e']) or {}).get('name') in taken_vars:
+                                return True
+                    return False
+                mp = h13.must(g, lambda e: False, excuse=any_end, start_event=d)
                 if not mp.get(exit_pt, True):
                     okk, why = False, 'the walk started at %s can end before the cursor is back at &idle_threads' % relpath(d['loc'])
-        # (1b) every thread object taken from a cursor is kicked before the variable is reused / the function returns
-        for t in [e for e in g.events() if any(derived_from(e, c) for c in cursors)]:
-            tv = strip(t['lhs'])['name']
-            def kicked(e, tv=tv):
+        # the same for a thread-typed cursor T: the element a definition selects is `&T->list`; it is the head, or T is kicked,
+        # before T is redefined / the function returns; the walk that starts at head.next ends only at the head
+        for tn in sorted(typed):
+            tdefs = typed_defs(tn)
+            def t_end(blk, si, atoms, tn=tn):
+                for (op, lc, rc, l, r) in atoms:
+                    if op == '!=' and h13.opkey(l) == ('empty', PRIV, 'idle_threads') and is_int(r, 0):
+                        return True
+                    if op != '==':
+                        continue
+                    for (x, y) in ((l, r), (r, l)):
+                        x0 = strip(x)
+                        if isinstance(x0, dict) and x0.get('k') == 'addr' and last_member(x0['e']) == (THR, 'list') \
+                                and (root_var(x0['e']) or {}).get('name') == tn and h13.head_of(y, al) == (PRIV, 'idle_threads'):
+                            return True
+                return False
+            def t_kick(e, tn=tn):
                 if not is_kick_post(e):
                     return False
-                b = kick_base(e)
-                return isinstance(b, dict) and ((b.get('k') == 'var' and b['name'] == tv) or b.get('_was') == tv)
-            ev2 = h13.forward_from(g, t, False, lambda e, s, tv=tv: True if (kicked(e) or var_def(e, tv)) else s, lambda a, b: a and b)
-            pts = [(e['_b'], e['_i']) for e in g.events() if var_def(e, tv)] + [exit_pt]
-            if not all(ev2.get(p, True) for p in pts):
+                b = strip(strip(strip(e['args'][0])['e'])['base'])
+                return isinstance(b, dict) and ((b.get('k') == 'var' and b['name'] == tn) or b.get('_was') == tn)
+            for (d, nx) in tdefs:
+                if nx[0] == 'entry' and nx[1] not in typed:
+                    okk, why = False, 'the cursor advances from a thread that is not part of the walk (%s)' % relpath(d['loc'])
+                ev1 = h13.forward_from(g, d, False, lambda e, s_, tn=tn: True if (t_kick(e) or var_def(e, tn)) else s_, lambda a, b: a and b,
+                                       edge=lambda blk, si, s_: True if (s_ or h13.edge_all(blk, si, lambda atoms: t_end(blk, si, atoms))) else s_)
+                pts = [(e['_b'], e['_i']) for (e, _) in tdefs] + [exit_pt]
+                if not all(ev1.get(p_, True) for p_ in pts):
+                    okk, why = False, 'the thread selected at %s is neither kicked nor the list head' % relpath(d['loc'])
+                if nx == ('head',):
+                    mp = h13.must(g, lambda e: False, excuse=t_end, start_event=d)
+                    if not mp.get(exit_pt, True):
+                        okk, why = False, 'the walk started at %s can end before the cursor is back at &idle_threads' % relpath(d['loc'])
+        # (1b) every thread object taken from a cursor is kicked before the variable is reused / the function returns
+        #      (the pointer may be copied on: state = the variables that hold it now, or True once it was kicked; it is
+        #      lost -- not kicked -- when the last of them is overwritten)
+        def is_read(name):
+            return any(y.get('k') == 'var' and y.get('name') == name for e in g.events() if e['ev'] not in ('ret', 'leave', 'enter')
+                       for k_, x in e.items() if isinstance(x, (dict, list)) and not (k_ == 'lhs' and strip(x).get('k') == 'var') for y in walk(x)) \
+                or any(blk.term and blk.term.get('cond') is not None and any(y.get('k') == 'var' and y.get('name') == name for y in walk(blk.term['cond']))
+                       for blk in g.blocks.values())
+        for t in [e for e in g.events() if any(derived_from(e, c) for c in cursors)]:
+            tv = strip(t['lhs'])['name']
+            if not is_read(tv):
+                continue                    # a result variable nobody reads (its value reached the caller's local by substitution)
+            # state: None (t not executed yet) | 'lost' | frozenset of pending instances, each the set of variables that hold
+            # a thread taken at t which was not kicked yet (advance-before-kick keeps the previous one in another variable)
+            def tr_t(e, st, t=t, tv=tv):
+                if st == 'lost':
+                    return st
+                if e is t:
+                    old = frozenset(x - {tv} for x in (st or frozenset()))
+                    if frozenset() in old:
+                        return 'lost'
+                    return old | {frozenset({tv})}
+                if st is None:
+                    return None
+                if is_kick_post(e):
+                    b_ = kick_base(e)
+                    if isinstance(b_, dict):
+                        nm = b_['name'] if b_.get('k') == 'var' else b_.get('_was')
+                        return frozenset(x for x in st if nm not in x)
+                if e['ev'] == 'store' and strip(e['lhs']).get('k') == 'var':
+                    nm = strip(e['lhs'])['name']
+                    r = strip(e['rhs']) if (e.get('op') == '=' and 'rhs' in e) else None
+                    again = e is not t and any(derived_from(e, c) and derived_from(t, c) for c in cursors)
+                    out = set()
+                    for x in st:
+                        if (isinstance(r, dict) and r.get('k') == 'var' and r['name'] in x) or (again and tv in x):
+                            x = x | {nm}            # a copy (or the same object taken again from the same, unchanged cursor)
+                        elif nm in x:
+                            x = x - {nm}
+                            if not x:
+                                return 'lost'
+                        out.add(x)
+                    return frozenset(out)
+                return st
+            def jn_t(a, b):
+                if a == 'lost' or b == 'lost':
+                    return 'lost'
+                if a is None:
+                    return b
+                if b is None:
+                    return a
+                return a | b
+            def ed_t(blk, si, st):
+                # `&T->list == &idle_threads`: what was taken is the list head itself, not a thread
+                if not st or st == 'lost':
+                    return st
+                heads = set()
+                for (i_, alts) in h13.cond_alts(blk):
+                    if i_ != si or not alts:
+                        continue
+                    per_alt = []
+                    for atoms in alts:
+                        hs = set()
+                        for (op, lc, rc, l, r) in atoms:
+                            if op != '==':
+                                continue
+                            for (x, y) in ((l, r), (r, l)):
+                                x0 = strip(x)
+                                if isinstance(x0, dict) and x0.get('k') == 'addr' and last_member(x0['e']) == (THR, 'list') \
+                                        and h13.head_of(y, al) == (PRIV, 'idle_threads') and root_var(x0['e']) is not None:
+                                    hs.add(root_var(x0['e'])['name'])
+                        per_alt.append(hs)
+                    heads = set.intersection(*per_alt) if per_alt else set()
+                return frozenset(x for x in st if not (x & heads)) if heads else st
+            _, ev2 = forward(g, None, tr_t, jn_t, edge=ed_t, start=t['_b'])
+            fin = ev2.get(exit_pt)
+            if fin == 'lost' or (fin is not None and len(fin) > 0):
                 okk, why = False, 'the idle thread taken at %s is not kicked on every path' % relpath(t['loc'])
     ctx.ob('R-C13d', 'put:idle-workers-kicked', okk, loc=kicks[0]['loc'] if kicks else f.loc,
            detail='every thread on the idle list is posted its kick inside the lock region%s' % ('' if okk else ': ' + why), fn=f.q)
     # --- no worker: the owner frees the pool from its loop
     mp_reg = h13.must(g, lambda e: is_sd(e), kill=unlock)
+    cv = h13.value_copies(g, K_STARTED, POOL)
     def excuse(blk, si, atoms):
-        return h13.atoms_nonzero(atoms, K_STARTED) and POOL in held(ls.get((blk.id, len(blk.events)))) \
+        # a local that holds the count as read in this lock region (`n = pool->started_threads`) stands for the count
+        fcc = {v: K_STARTED for v in (cv.get((blk.id, len(blk.events))) or ())}
+        return h13.atoms_nonzero(atoms, K_STARTED, fcc) and POOL in held(ls.get((blk.id, len(blk.events)))) \
             and bool(mp_reg.get((blk.id, len(blk.events))))
     mp = h13.must(g, is_pool_post, excuse=excuse)
     post = [e for e in g.events() if is_pool_post(e)]
@@ -635,7 +824,12 @@ def threads(ctx):
                 keys.add(keyid(hg, e))
     keys.discard(None)
     if not keys:
-        raise AnalysisBroken('the created thread does not set a thread-specific key to its thread record')
+        if not any(is_call(e, 'pthr_key_create') for f_ in prog.all_funcs() for e in f_.events()):
+            raise AnalysisBroken('the created thread does not set a thread-specific key to its thread record (and no key is created anywhere)')
+        # keys with destructors exist, but the new thread never stores its record under one: no destructor will run for it
+        ctx.ob('R-C13e', 'handler:key-set-before-body', False, loc=osbodies[0].loc,
+               detail='the created thread never sets a thread-specific key to its thread record: the exit destructor cannot report its death', fn=osbodies[0].q)
+        return
     keyc = []
     for (root, g, sites) in h13.contexts(prog, lambda e: is_call(e, 'pthr_key_create'), key='keycreate'):
         sites = [e for e in sites if keyid(g, e) in keys]
@@ -650,8 +844,9 @@ def threads(ctx):
     for d in died:
         g = h13.ctx_of(prog, d)
         join = [e for e in g.events() if is_call(e, 'pthr_join')]
-        if not join:
-            raise AnalysisBroken('%s: join not found' % d.name)
+        if not join and not any(is_call(e, 'pthr_join') for f_ in prog.all_funcs() for e in f_.events()):
+            raise AnalysisBroken('%s: join not found (pthr_join is not called anywhere)' % d.name)
+        # (a died handler that cannot reach the join -- it exists elsewhere -- releases the record unjoined: the obligations below fail)
         mp = must_pass(g, lambda e: e in join)
         effs = [e for e in g.events() if _record_effect(e, ITHR)]
         kinds = (('unlink', lambda e: any(x.get('k') == 'member' and (x.get('record'), x.get('field')) == (ITHR, 'list') for x in walk(e.get('lhs') if e['ev'] == 'store' else e.get('args')))),
@@ -698,7 +893,7 @@ def threads(ctx):
         def arms(e):
             if is_call(e, 'pthr_key_create'):
                 return keyid(g, e) in keys
-            if is_call(e, 'pthr_once'):
+            if is_call(e, 'pthr_once') or is_call(e, 'pthread_once'):
                 t = h13.func_arg(prog, g, e, 1)
                 if t is None:
                     return False
@@ -706,8 +901,11 @@ def threads(ctx):
                 return any(is_call(x, 'pthr_key_create') and keyid(tg, x) in keys for x in tg.events())
             return False
         armed = must_pass(g, arms)
+        # a library constructor that creates the key has run before anything can create a thread
+        at_load = any(getattr(r_, 'constructor', False) and bool(must_pass(g_, lambda x, ss=ss: any(x is y for y in ss)).get((g_.exit, 0)))
+                      for (r_, g_, ss) in keyc)
         _agg(ctx, 'R-C13e', 'destructor:registered', sites,
-             lambda e: bool(armed.get((e['_b'], e['_i']))) and all(t is not None for (_, _, t) in dtors),
+             lambda e: (at_load or bool(armed.get((e['_b'], e['_i'])))) and all(t is not None for (_, _, t) in dtors),
              'the thread key with its exit destructor is created before any thread is, so the destructor runs however the thread exits', root, g)
         # --- the OS-level thread body arms the destructor before the user routine
         for s in sites:
@@ -717,7 +915,16 @@ def threads(ctx):
             hg = h13.ctx_of(prog, h)
             sp = [e for e in hg.events() if is_call(e, 'pthr_setspecific') and keyid(hg, e) in keys
                   and h13.mentions_record(e['args'][1], ITHR)]
-            body = [e for e in hg.events() if e['ev'] == 'call' and last_member(e.get('fnexpr')) == (ITHR, 'start_routine')]
+            src = h13.value_copies(hg, ('field', ITHR, 'start_routine'))
+            def is_body(e):
+                # the indirect call of the user's routine, also through a local that holds thr->start_routine there
+                if e['ev'] != 'call' or 'fnexpr' not in e:
+                    return False
+                if last_member(e.get('fnexpr')) == (ITHR, 'start_routine') or h13.called_field(hg, e) == (ITHR, 'start_routine'):
+                    return True
+                v_ = strip(e['fnexpr'])
+                return isinstance(v_, dict) and v_.get('k') == 'var' and v_['name'] in (src.get((e['_b'], e['_i'])) or ())
+            body = [e for e in hg.events() if is_body(e)]
             mps = must_pass(hg, lambda e: e in sp)
             ctx.ob('R-C13e', 'handler:key-set-before-body', bool(body) and all(mps.get((e['_b'], e['_i'])) for e in body), loc=h.loc,
                    detail='the thread key is set to the thread record (arming the destructor) before the user routine runs', fn=h.q)
